@@ -13,8 +13,8 @@ c*c + s*s == 1 for unit pairs, definitions).  Here
   (c) sympy -- UNTRUSTED, a hint generator -- proposes cofactors c_i by
       multivariate division of N by the g_i;
   (d) z3 checks the pure polynomial identity  N - sum_i c_i g_i == 0  with no
-      hypotheses, the g_i being written as the difference of the two sides of
-      equalities that are conjuncts of pc;
+      hypotheses, each g_i being the numerator (same fraction arithmetic,
+      divisors shown non-zero) of lhs - rhs of an equality that is a conjunct of pc;
   (e) z3 checks the composition step over fresh variables:
       G_i == 0, P == sum_i C_i G_i, Q != 0, X Q == P  =>  X == 0.
 
@@ -174,16 +174,15 @@ def prove_eq_mod(ctx, lhs, rhs, extra=(), timeout_ms=20000):
         if num != 0:
             for e in _equalities(pcs):
                 try:
-                    g = sympy.together(symx._to_sympy(z3.simplify(e.arg(0) - e.arg(1)), syms))
-                    gn, gd = sympy.fraction(g)
-                    if not gd.is_number:
-                        continue            # only polynomial relations are used as generators
-                    gn = sympy.expand(gn / gd)
+                    # lhs - rhs = Ng/Dg by the same fraction arithmetic: lhs == rhs gives Ng == 0 (its divisors are non-zero, checked below when used)
+                    gdivs = []
+                    Ng, Dg = ratfun(e.arg(0) - e.arg(1), {}, gdivs)
+                    gn = sympy.expand(symx._to_sympy(Ng, syms))
                     if gn == 0 or gn.is_number:
                         continue
                     gs.append(gn)
-                    gz.append(e)
-                except NotImplementedError:
+                    gz.append((Ng, gdivs))
+                except (NotImplementedError, NotRational):
                     continue
             if not gs:
                 return 'unknown', time.time() - t0, 'no polynomial relations in the path condition'
@@ -206,11 +205,20 @@ def prove_eq_mod(ctx, lhs, rhs, extra=(), timeout_ms=20000):
         # (d) the identity, checked by z3 with no hypotheses; generators written from pc's own equalities
         comb = z3.RealVal(0)
         used = []
-        for q_, e_ in zip(Q, gz):
+        for q_, (Ng, gdivs) in zip(Q, gz):
             if q_ == 0:
                 continue
-            comb = comb + symx._from_sympy(sympy.expand(q_), syms) * (e_.arg(0) - e_.arg(1))
-            used.append(e_)
+            for d in gdivs:
+                if d.get_id() in seen or z3.is_rational_value(d):
+                    continue
+                seen.add(d.get_id())
+                if _nonzero_in_pc(pcs, d):
+                    continue
+                r2, dt2, _ = symx.solve(pcs + [d == 0], min(timeout_ms, 10000))
+                if r2 != 'unsat':
+                    return 'unknown', time.time() - t0, 'divisor of a relation not shown non-zero (%s): %s' % (r2, str(d)[:80])
+            comb = comb + symx._from_sympy(sympy.expand(q_), syms) * Ng
+            used.append(Ng)
         r1, dt1, _ = symx.solve([N - comb != 0], timeout_ms)
         if r1 != 'unsat':
             return 'unknown', time.time() - t0, 'identity not confirmed by z3 (%s)' % r1
